@@ -32,6 +32,8 @@ GROUNDED = {
     'elevated_and_grounded': (D.STRUCTURES['elevated_and_grounded'][0], D.STRUCTURES['elevated_and_grounded'][1]),
     'sloping_branch': (dict(G=(0, 0, 0), A=(0.06, 0.03, 0.15), B=(0.2, 0.03, 0.17), C=(0.0, 0.14, 0.2)),
                        [('G', 'A', 3), ('A', 'B', 3), ('A', 'C', 3)]),
+    # a mast 0.76 degrees out of plumb: NOT vertical (the fill shortcuts of vertical grounded wires do not apply)
+    'leaning_mast': (dict(G=(0, 0, 0), A=(0.004, 0, 0.3)), [('G', 'A', 10)]),
     'horizontal_over_ground': (dict(A=(-0.12, 0, 0.1), B=(0.13, 0, 0.1)), [('A', 'B', 6)]),
     # the foot point height is zero only up to a (positive) rounding error
     'computed_zero_foot': (dict(G=(0.05, 0, (0.1 + 0.2 - 0.3) / 20.0), A=(0.05, 0.02, 0.17), B=(0.2, 0.02, 0.19)),
@@ -216,9 +218,23 @@ def check_case(args):
         for _ in range(2):
             a, b = rnd.sample(range(N), 2) if N >= 2 else (0, 0)
             feeds.append([(a, 1 + 0j), (b, complex(rnd.uniform(-1, 1), rnd.uniform(-1, 1)))])
-        for feed in feeds:
+        for fi, feed in enumerate(feeds):
             mg = build(gg, True, taper)
             mf = build(fg, False, taper)
+            if fi % 2 == 1 and N >= 2:
+                # lumped loads: Z on a pulse and on its mirror pulse; a load on a grounded pulse (between wire and
+                # ground) is the series connection with its own image in the mirror model: 2 Z on the plane pulse.
+                # The grounded pulse is loaded FIRST and another one after it.
+                from mininec.mininec import Impedance_Load
+                gp = [p for p in range(N) if mg.pulses[p].ground.any()]
+                order_ = (gp[:1] + [p for p in range(N) if p not in gp[:1]])[:2]
+                for k_, p in enumerate(order_):
+                    z = [40 + 90j, 15 - 60j][k_]
+                    mg.register_load(Impedance_Load(z), p)
+                    fq_, s_, iq_, si_ = cor[p]
+                    mf.register_load(Impedance_Load(z * (2 if mg.pulses[p].ground.any() else 1)), fq_)
+                    if iq_ is not None:
+                        mf.register_load(Impedance_Load(z), iq_)
             for q, v in feed:
                 mg.register_source(Excitation(complex(v)), q)
                 fq, s, iq, si = cor[q]
@@ -269,7 +285,7 @@ def run(tier):
     chk.assumptions = [
         'TLC 1.8 on spec/TopologyOn.tla checks all Topology invariants (count formula, junction structure) on the ground model and on the mirror model of every case; the relation N_free = 2 N_ground - #ground pulses is evaluated on the two records',
         'the pulse correspondence (with signs) is derived by the harness from pulse positions and directions of the two real models',
-        'eight fixed grounded structures (harness/c03.py) plus seeded random grounded trees of 2..4 wires (2 quick, 30 thorough), every wire order and direction choice, every single feed pulse and two seeded two-source sets per description; tolerance of the property with its condition-number rule']
+        'nine fixed grounded structures (one a mast half a degree out of plumb), every second feed set with lumped loads (the grounded pulse loaded first), (harness/c03.py) plus seeded random grounded trees of 2..4 wires (2 quick, 30 thorough), every wire order and direction choice, every single feed pulse and two seeded two-source sets per description; tolerance of the property with its condition-number rule']
     # besides the fixed list: seeded random grounded trees of 2 .. 4 wires (harness/describe.py)
     for k in range(2 if tier == 'quick' else 30):
         rs = random.Random('c03-structure/%s/%d' % (C.seed(), k))
